@@ -66,24 +66,38 @@ class Shadow(object):
 
     def letter(self, L):
         r = self.mean(self.kopt)
+        m = len(r)
         ok = np.all(np.isfinite(r))
+        e0 = np.zeros(m)
+        e0[0] = 1.0
         if L == "better":
-            return 0.5 * r if ok else np.array([0.5, 0.25])
+            return 0.5 * r if ok else 0.25 * np.ones(m) + 0.25 * e0
         if L == "worse":
-            return 2.0 * r + np.array([1.0, 0.0]) if ok else np.array([3.0, 1.0])
+            return 2.0 * r + e0 if ok else np.ones(m) + 2.0 * e0
         if L == "tie":
-            return r.copy() if ok else np.array([1.0, 1.0])
+            return r.copy() if ok else np.ones(m)
         if L == "negtie":
-            return -r if ok else np.array([-1.0, 1.0])
+            return -r if ok else np.ones(m) - 2.0 * e0
         if L == "nan":
-            return np.array([np.nan, 1.0])
+            return np.ones(m) + (np.nan - 1.0) * e0 if False else np.where(e0 == 1.0, np.nan, 1.0)
         if L == "inf":
-            return np.array([np.inf, 1.0])
+            return np.where(e0 == 1.0, np.inf, 1.0)
         raise ValueError(L)
 
 
 def init(params):
     from dfols.model import Model
+    if params.get("ctor") is not None:
+        c = params["ctor"]
+        x0, r0 = np.array(c["x0"], dtype=float), np.array(c["r0"], dtype=float)
+        n = len(x0)
+        model = Model(c["npt"], x0.copy(), r0.copy(), -BIG * np.ones(n), BIG * np.ones(n), [], c["ns0"], do_logging=False,
+                      x0_eval_num=c.get("ev0", 1)) if "ev0" in c else \
+            Model(c["npt"], x0.copy(), r0.copy(), -BIG * np.ones(n), BIG * np.ones(n), [], c["ns0"], do_logging=False)
+        sh = Shadow(x0, r0, False)
+        sh.pts[0][1] = [r0.copy() for _ in range(int(c["ns0"]))]
+        sh.next_eval = 100000
+        return {"m": model, "s": sh}
     n = 2
     x0 = np.array([1.0, 0.5])
     r0 = np.array([1.0, -0.5])
@@ -136,6 +150,8 @@ def apply(st, op, params, check=True):
     try:
         if kind == "change":
             _, k, pi, L = op
+            if k > len(s.pts):
+                raise Disabled("index beyond the next free slot")
             r = s.letter(L)
             xrel = np.array(PTS[pi])
             ev = s.next_eval
@@ -155,6 +171,8 @@ def apply(st, op, params, check=True):
                     s.stale = False
         elif kind == "sample":
             _, k, L = op
+            if k >= len(s.pts):
+                raise Disabled("no such point yet")
             r = s.letter(L)
             m.add_new_sample(k, rvec_extra=r)
             s.pts[k][1].append(r.copy())
@@ -177,6 +195,8 @@ def apply(st, op, params, check=True):
                     s.stale = False
         elif kind == "swap":
             _, k1, k2 = op
+            if max(k1, k2) >= len(s.pts):
+                raise Disabled("swap with a slot that holds no point yet")
             m.swap_points(k1, k2)
             s.pts[k1], s.pts[k2] = s.pts[k2], s.pts[k1]
             if s.kopt == k1:
@@ -189,6 +209,8 @@ def apply(st, op, params, check=True):
             s.xbase = s.xbase + sh
         elif kind == "save_k":
             k = op[1]
+            if k >= len(s.pts):
+                raise Disabled("no such point yet")
             x = s.pts[k][0].copy()
             r = s.mean(k)
             _save(m, s, x, r, len(s.pts[k][1]), s.pts[k][2])
@@ -199,6 +221,52 @@ def apply(st, op, params, check=True):
             ev = s.next_eval
             s.next_eval += 1
             _save(m, s, x, r, 1, ev)
+        elif kind == "c_change":          # concrete operations recorded from a real solver run
+            _, k, x, r, ev = op
+            xrel, r = np.array(x, dtype=float), np.array(r, dtype=float)
+            m.change_point(int(k), xrel, r, int(ev))
+            ent = [s.xbase + xrel, [r.copy()], int(ev)]
+            if k == len(s.pts):
+                s.pts.append(ent)
+            elif k < len(s.pts):
+                s.pts[k] = ent
+            else:
+                raise Disabled("recorded index beyond the shadow's point set")
+            if k == s.kopt:
+                if not s.designates_min():
+                    s.stale = True
+            elif better(s.obj(k), s.obj(s.kopt)):
+                s.kopt = k
+                if s.designates_min():
+                    s.stale = False
+        elif kind == "c_sample":
+            _, k, r = op
+            if k >= len(s.pts):
+                raise Disabled("recorded index beyond the point set")
+            r = np.array(r, dtype=float)
+            m.add_new_sample(int(k), rvec_extra=r)
+            s.pts[k][1].append(r.copy())
+            o = s.objs()
+            rk = np.array([rank(t) for t in o])
+            if not (rk[s.kopt] == rk.min() or abs(rk[s.kopt] - rk.min()) <= 1e-12 * max(1.0, abs(rk.min()))):
+                s.kopt = int(np.argmin(rk))
+            s.stale = False
+        elif kind == "c_addpt":
+            _, x, r, ev = op
+            xrel, r = np.array(x, dtype=float), np.array(r, dtype=float)
+            m.add_new_point(xrel, r, int(ev))
+            s.pts.append([s.xbase + xrel, [r.copy()], int(ev)])
+            if better(s.obj(len(s.pts) - 1), s.obj(s.kopt)):
+                s.kopt = len(s.pts) - 1
+                if s.designates_min():
+                    s.stale = False
+        elif kind == "c_shift":
+            sh = np.array(op[1], dtype=float)
+            m.shift_base(sh.copy())
+            s.xbase = s.xbase + sh
+        elif kind == "c_save":
+            _, x, r, ns, ev = op
+            _save(m, s, np.array(x, dtype=float), np.array(r, dtype=float), int(ns), int(ev))
         else:
             raise ValueError(op)
     except AssertionError as e:
@@ -319,8 +387,166 @@ def describe(st):
 # ---------------------------------------------------------------------------------------------------------------
 # recorded real histories (thorough): operation traces of real solver runs with inserted operations
 # ---------------------------------------------------------------------------------------------------------------
+def record_traces():
+    """Operation traces of real solver runs, captured by wrapping the Model methods from the harness."""
+    import dfols.model as M
+    from .. import solvex, cfgs
+    runs = [
+        ("plain", cfgs.base_cfg("rosen", 0, npt=3, rhobeg=0.3, rhoend=0.02, maxfun=40)),
+        ("soft", cfgs.base_cfg("nzr", 0, npt=3, rhobeg=0.3, rhoend=0.05, maxfun=45, user_params={"restarts.use_restarts": True})),
+        ("avg2", cfgs.base_cfg("nzr", 0, npt=3, rhobeg=0.3, rhoend=0.05, maxfun=40, nsamples="const2", memo=False, noise_amp=0.02)),
+        ("soft_inc", cfgs.base_cfg("nzr", 0, npt=3, rhobeg=0.3, rhoend=0.05, maxfun=45,
+                                   user_params={"restarts.use_restarts": True, "restarts.increase_npt": True, "restarts.max_npt": 5})),
+        ("regression", cfgs.base_cfg("rosen", 0, npt=5, rhobeg=0.3, rhoend=0.02, maxfun=40)),
+    ]
+    out = []
+    names = ["__init__", "change_point", "add_new_sample", "add_new_point", "shift_base", "save_point"]
+    for name, cfg in runs:
+        rec = {"ctor": None, "ops": [], "first": None}
+        orig = {nm: getattr(M.Model, nm) for nm in names}
+
+        def mk(nm):
+            def w(self, *a, **kw):
+                if nm == "__init__":
+                    r = orig[nm](self, *a, **kw)
+                    if rec["first"] is None:
+                        rec["first"] = self
+                        rec["ctor"] = {"npt": int(a[0]), "x0": np.array(a[1]).tolist(), "r0": np.array(a[2]).tolist(), "ns0": int(a[6])}
+                    return r
+                if self is rec["first"]:
+                    if nm == "change_point":
+                        rec["ops"].append(["c_change", int(a[0]), np.array(a[1]).tolist(), np.array(a[2]).tolist(), int(a[3])])
+                    elif nm == "add_new_sample":
+                        k = a[0] if a else kw["k"]
+                        r = kw.get("rvec_extra", a[1] if len(a) > 1 else None)
+                        rec["ops"].append(["c_sample", int(k), np.array(r).tolist()])
+                    elif nm == "add_new_point":
+                        rec["ops"].append(["c_addpt", np.array(a[0]).tolist(), np.array(a[1]).tolist(), int(a[2])])
+                    elif nm == "shift_base":
+                        rec["ops"].append(["c_shift", np.array(a[0]).tolist()])
+                    elif nm == "save_point":
+                        rec["ops"].append(["c_save", np.array(a[0]).tolist(), np.array(a[1]).tolist(), int(a[2]), int(a[3])])
+                return orig[nm](self, *a, **kw)
+            return w
+        for nm in names:
+            setattr(M.Model, nm, mk(nm))
+        try:
+            ex = solvex.Execution(cfg).run()
+        finally:
+            for nm in names:
+                setattr(M.Model, nm, orig[nm])
+        if ex.outcome != "returned" or not rec["ops"]:
+            raise common.HarnessError("could not record a real trace for %s: %s" % (name, ex.describe()))
+        out.append({"name": name, "ctor": rec["ctor"], "ops": rec["ops"][:60]})
+    return out
+
+
+def _variant_task(task):
+    """Replay trace[:i] + inserted ops (one or two, the second j positions later) + rest of the trace on the real Model."""
+    trace, variants = task
+    params = {"ctor": trace["ctor"], "npt": trace["ctor"]["npt"], "max_pts": 7}
+    ops_real = trace["ops"]
+    out = []
+    ntrans = 0
+    for var in variants:
+        st = init(params)
+        ins = dict((pos, op) for pos, op in var)     # position -> inserted op (inserted BEFORE real op number pos)
+        first = min(ins)
+        hist = []
+        dead = False
+        for i in range(len(ops_real) + 1):
+            if i in ins:
+                try:
+                    v = apply(st, ins[i], params, check=True)
+                except Disabled:
+                    dead = True
+                    break
+                ntrans += 1
+                hist.append(ins[i])
+                if v:
+                    out.append((v[0][0], v[0][1], trace["name"], var, len(hist)))
+                    dead = True
+                    break
+            if i == len(ops_real):
+                break
+            try:
+                v = apply(st, ops_real[i], params, check=(i >= first))
+            except Disabled:
+                dead = True
+                break
+            ntrans += 1
+            hist.append(ops_real[i])
+            if v:
+                out.append((v[0][0], v[0][1], trace["name"], var, len(hist)))
+                break
+    return {"viol": out, "ntrans": ntrans, "nvar": len(variants)}
+
+
+def _alphabet_for(trace_ctor, reduced=False):
+    """Relative operations that can be inserted anywhere (indices limited to the initial point count)."""
+    K = trace_ctor["npt"]
+    letters = ["better", "tie", "nan", "worse"] if reduced else LETTERS
+    out = []
+    for k in range(K):
+        for pi in (range(2) if reduced else range(len(PTS))):
+            for L in letters:
+                out.append(["change", k, pi, L])
+        for L in letters:
+            out.append(["sample", k, L])
+        if not reduced or k == 0:
+            out.append(["save_k", k])
+    for k1 in range(K):
+        for k2 in range(k1 + 1, K):
+            out.append(["swap", k1, k2])
+    out.append(["shift", "xopt"])
+    out.append(["shift", "dyadic"])
+    for L in letters:
+        out.append(["save_new", 0, L])
+    if not reduced:
+        for L in letters:
+            out.append(["addpt", 0, L])
+    return out
+
+
 def _variants(report, tier):
-    return 0
+    """All single insertions (quick: two traces; thorough: all traces) and, in thorough, all pairs of insertions from a
+    reduced alphabet whose second member comes 0..3 positions after the first."""
+    traces = record_traces()
+    # the pure recorded traces must themselves satisfy the oracle (conformance of the shadow model with real runs)
+    tasks = []
+    use = traces[:2] if tier == "quick" else traces
+    for tr in use:
+        if len(tr["ctor"]["x0"]) != 2:
+            continue
+        alpha = _alphabet_for(tr["ctor"], reduced=(tier == "quick"))
+        n = len(tr["ops"])
+        step = 1 if tier == "thorough" else 2
+        variants = [[(i, op)] for i in range(0, n + 1, step) for op in alpha]
+        if tier == "thorough":
+            red = _alphabet_for(tr["ctor"], reduced=True)[::3]
+            for i in range(0, n + 1, 2):
+                for j in (0, 1, 3):
+                    if i + j > n:
+                        continue
+                    for a in red:
+                        for b in red:
+                            variants.append([(i, a), (i + j + (0 if j else 0), b)] if j else [(i, a)])
+            # pairs at the same position are applied in order a then b: encode as positions i and i (dict keeps one) -> use i, i+1
+        for c in range(0, len(variants), 400):
+            tasks.append((tr, variants[c:c + 400]))
+    nvar = ntrans = 0
+    seen = set()
+    for res in common.pool_map(_variant_task, tasks):
+        nvar += res["nvar"]
+        ntrans += res["ntrans"]
+        for clause, detail, tname, var, steps in res["viol"]:
+            k = (clause, tname, var[0][1][0])
+            if k in seen:
+                continue
+            seen.add(k)
+            report.add_violation(clause, "recorded trace '%s' with inserted %s: %s" % (tname, var, detail),
+                                 {"engine": "variants", "trace": tname, "variant": var}, {"op": var[0][1][0], "variants": True})
+    return {"traces": [{"name": t["name"], "length": len(t["ops"])} for t in use], "variants": nvar, "transitions": ntrans}
 
 
 def run(report, tier, seed):
@@ -357,6 +583,9 @@ def run(report, tier, seed):
             seen.add(k)
             report.add_violation(clause, detail, {"engine": "modelx", "sys": SYS, "params": params, "history": hist},
                                  {"op": hist[-1][0] if hist else "init", "reg": bool(params.get("reg"))})
+    vres = _variants(report, tier)
+    cov["recorded_trace_variants"] = vres
+    total_trans += vres["transitions"]
     cov["states"] = total_states
     cov["transitions"] = total_trans
     cov["traces_validated_against_impl"] = total_trans
@@ -375,5 +604,11 @@ def run(report, tier, seed):
 
 
 def replay(rep):
+    if rep.get("engine") == "variants":
+        tr = [t for t in record_traces() if t["name"] == rep["trace"]][0]
+        res = _variant_task((tr, [[tuple(p) for p in rep["variant"]]]))
+        for clause, detail, tname, var, steps in res["viol"]:
+            print("  VIOLATED clause=%s after %d operations: %s" % (clause, steps, detail))
+        return 1 if res["viol"] else 0
     v = modelx.replay_history(rep["sys"], rep["params"], rep["history"])
     return 1 if v else 0
